@@ -36,6 +36,7 @@ type Prop struct {
 	Harnesses []H
 	Extra     []H
 	Conform   []H // concrete scenarios compared engine vs native
+	Census    bool // report the SSA census of nondeterminism sources (C13)
 	Assume    []string
 	Bounds    string
 	Outside   string
@@ -105,6 +106,8 @@ func matchKnown(kf []knownFinding, prop string, v sx.Violation) *knownFinding {
 }
 
 type progKey struct{ tags string }
+
+var censusInfo map[string]any
 
 func cmdCheck(args []string) int {
 	if len(args) < 2 {
@@ -343,6 +346,12 @@ func cmdCheck(args []string) int {
 		fmt.Println("INCONCLUSIVE:", s)
 	}
 
+	if prop.Census {
+		for _, p := range progs {
+			censusInfo = sx.Census(p)
+			break
+		}
+	}
 	writeEvidence(prop, tier, seed, results, progs, conformTraces+nReplayed, nViol, nKnown, inconclusive, time.Since(t0), nat)
 	fmt.Printf("%s %s: exit=%d harnesses=%d violations=%d known=%d inconclusive=%d wall=%.1fs\n", id, tier, exit, len(results), nViol, nKnown, len(inconclusive), time.Since(t0).Seconds())
 	return exit
@@ -560,6 +569,9 @@ func writeEvidence(prop *Prop, tier string, seed int, results []*sx.RunResult, p
 		"known_findings_seen":           nKnown,
 		"inconclusive":                  inconclusive,
 		"native_build_s":                round2(nat.BuildSecs),
+	}
+	if censusInfo != nil {
+		cov["nondeterminism_census"] = censusInfo
 	}
 	ev := map[string]any{
 		"property_id": prop.ID,
